@@ -433,6 +433,27 @@ fn ops_for(prop: &str, n: usize, len: usize) -> Vec<(ZOp, bool /*clone faults*/,
     v
 }
 
+/// C18: the union of the twin's operations over all properties, with the fault kinds each is run under
+pub fn all_ops(n: usize, len: usize) -> Vec<(ZOp, bool, bool)> {
+    let mut v: Vec<(ZOp, bool, bool)> = vec![];
+    let mut at: std::collections::HashMap<ZOp, usize> = std::collections::HashMap::new();
+    for prop in ["C03", "C05", "C06", "C07", "C09", "C10", "C12"] {
+        for (op, cf, df) in ops_for(prop, n, len) {
+            match at.get(&op) {
+                Some(&i) => {
+                    v[i].1 |= cf;
+                    v[i].2 |= df;
+                }
+                None => {
+                    at.insert(op, v.len());
+                    v.push((op, cf, df));
+                }
+            }
+        }
+    }
+    v
+}
+
 /// The zero-sized twin space for one property and one capacity; violations are reported under that property.
 pub fn zst_twin<const N: usize>(prop: &str, rep: &mut Report) {
     if N > 6 {
